@@ -32,6 +32,11 @@ ALPH = {"pieces": PIECES, "pieces2": PIECES2}
 FLAGS = [(c, a) for c in (False, True) for a in (False, True)]
 
 
+def misc_chars():
+    from mc.oracles.misc import EDIT_CHARS
+    return EDIT_CHARS
+
+
 @functools.lru_cache(maxsize=None)
 def families(tier):
     thorough = tier == "thorough"
@@ -59,12 +64,12 @@ def families(tier):
     for fname, table, members in c01.families(tier):
         if table == "default":      # every family of C01 under the default table (many rings open at once, nesting, ...)
             fams.append(("C01:" + fname, list(members)))
-    # edit-distance-1 neighbourhood of well-formed strings: every printable ASCII character inserted at, or replacing, every
+    # edit-distance-1 neighbourhood of well-formed strings: every ASCII character (and 18 kinds of non-ASCII character) inserted at, or replacing, every
     # position of a seed (symbol classification is done by hand-written patterns and suffix tests: one stray character
     # must lead to a result or a DecoderError, never anything else)
     seeds = ["[C][=C][C]", "[C][C@@H1][N+1]", "[C][C][Ring1][C]", "[C][=Branch2][C][C][O]", "[C][-/Ring1][C][F]",
              "[S][epsilon][nop][O]", "[C][13CH2-1][#N]", "[C][Branch1_2][C][Cexpl][Expl=Ring1][C]"]
-    chars = [chr(c) for c in range(32, 127)]
+    chars = misc_chars()
     for seed in seeds:
         mem = []
         for i in range(len(seed) + 1):
